@@ -18,6 +18,84 @@ def _formula_env(p):
     return {"p": p}
 
 
+class _Finfo(ast.NodeTransformer):
+    """Replace numpy.finfo attributes / get_precision(dtype) by their IEEE values for one format."""
+
+    def __init__(self, bits, names):
+        self.p = PREC[bits]
+        self.names = names  # local names bound to numpy.finfo(dtype)
+        fsz = self.p - 1
+        ebits = {16: 5, 32: 8, 64: 11}[bits]
+        self.attrs = dict(negep=-self.p, machep=-(self.p - 1), nmant=fsz, bits=bits, nexp=ebits, iexp=ebits,
+                          maxexp=2 ** (ebits - 1), minexp=2 - 2 ** (ebits - 1))
+        self.unknown = None
+
+    def _is_finfo(self, n):
+        if isinstance(n, ast.Name) and n.id in self.names:
+            return True
+        return isinstance(n, ast.Call) and (dotted(n.func) or "").endswith("finfo")
+
+    def visit_Attribute(self, n):
+        if self._is_finfo(n.value):
+            if n.attr not in self.attrs:
+                self.unknown = n.attr
+                return n
+            return ast.copy_location(ast.Constant(self.attrs[n.attr]), n)
+        return self.generic_visit(n)
+
+    def visit_Call(self, n):
+        if (dotted(n.func) or "").endswith("get_precision"):
+            return ast.copy_location(ast.Constant(self.p), n)
+        return self.generic_visit(n)
+
+
+def precision_expr_ok(func, node):
+    """p must evaluate to the precision (11/24/53) of every format; returns (ok, detail)."""
+    import copy
+
+    names = set()
+    for st in ast.walk(func):
+        if isinstance(st, ast.Assign) and isinstance(st.value, ast.Call) and (dotted(st.value.func) or "").endswith("finfo"):
+            names |= {t.id for t in st.targets if isinstance(t, ast.Name)}
+    got = {}
+    for bits in BITS:
+        tr = _Finfo(bits, names)
+        e = tr.visit(copy.deepcopy(node))
+        if tr.unknown:
+            return False, f"uses finfo.{tr.unknown}, which this check does not model"
+        v = ev(e, {})
+        got[bits] = v
+    ok = all(got[b] == PREC[b] for b in BITS)
+    return ok, f"`{norm_src(node)}` evaluates to {got} for float16/32/64; the precision is {dict((b, PREC[b]) for b in BITS)}"
+
+
+def next_direction_ok(ret):
+    """next(x, up): moving away from zero divides by c < 1, moving towards zero multiplies.  Semantic: evaluate the
+    selected arm on x = +-1, c = 1/2 for both directions."""
+    v = ret.value
+    if not (isinstance(v, ast.IfExp)):
+        return False, "return value is not a conditional on `up`"
+    res = {}
+    for up in (True, False):
+        t = ev(v.test, {"up": up})
+        if not isinstance(t, bool):
+            return False, f"direction test `{norm_src(v.test)}` is not decided by `up`"
+        arm = v.body if t else v.orelse
+        if not (isinstance(arm, ast.Call) and (call_name(arm) or "").endswith("select") and len(arm.args) == 3):
+            return False, f"arm `{norm_src(arm)}` is not a select"
+        for x in (1.0, -1.0):
+            c = ev(arm.args[0], {"x": x, "c": 0.5})
+            if not isinstance(c, bool):
+                return False, f"condition `{norm_src(arm.args[0])}` is not a sign test of x"
+            val = ev(arm.args[1] if c else arm.args[2], {"x": x, "c": 0.5})
+            if not isinstance(val, float):
+                return False, f"selected value `{norm_src(arm.args[1] if c else arm.args[2])}` is not arithmetic in x and c"
+            res[(up, x)] = val
+    want = {(True, 1.0): 2.0, (True, -1.0): -0.5, (False, 1.0): 0.5, (False, -1.0): -2.0}
+    bad = {k: (res[k], want[k]) for k in want if res[k] != want[k]}
+    return not bad, (f"with c = 1/2: (up, x) -> result {res}" + (f"; expected {want}" if bad else ""))
+
+
 def run(repo, tier):
     r = Report("C11", tier, repo, level="other", design_ref="§3/C11")
     r.explanation = (
@@ -84,11 +162,13 @@ def run(repo, tier):
         for st in g.body:
             if isinstance(st, ast.Assign) and isinstance(st.targets[0], ast.Name):
                 if st.targets[0].id == "p":
-                    pdef = norm_src(st.value)
+                    pdef = st.value
                 elif st.targets[0].id in ("P", "Q"):
                     exprs[st.targets[0].id] = st.value
-        ok = pdef in ("-fi.negep", "-numpy.finfo(dtype).negep", "fa.utils.get_precision(dtype)", "get_precision(dtype)")
-        r.ob("R11.1", f"{REL}::{fname} p", ok, f"p is computed as `{pdef}`, not as the precision -finfo.negep", loc(REL, g))
+        if pdef is None:
+            raise AnalysisError(f"{fname}: assignment of p not found")
+        ok, detail = precision_expr_ok(g, pdef)
+        r.ob("R11.1", f"{REL}::{fname} p", ok, detail, loc(REL, g))
         if set(exprs) != {"P", "Q"}:
             raise AnalysisError(f"{fname}: P/Q assignments not found")
         for nm, node in exprs.items():
@@ -157,13 +237,15 @@ def run(repo, tier):
     for st in nx.body:
         if isinstance(st, ast.Assign) and isinstance(st.targets[0], ast.Name):
             if st.targets[0].id == "p":
-                pexpr = norm_src(st.value)
+                pexpr = st.value
             if st.targets[0].id == "c" and isinstance(st.value, ast.Call) and (call_name(st.value) or "").endswith("constant"):
                 cexpr = st.value.args[0]
     if cexpr is None:
         raise AnalysisError("next(): constant c not found")
-    okp = pexpr in ("-numpy.finfo(dtype).negep", "-fi.negep")
-    r.ob("R11.2", f"{REL}::next p", okp, f"p = `{pexpr}`", loc(REL, nx))
+    if pexpr is None:
+        raise AnalysisError("next(): assignment of p not found")
+    okp, detail = precision_expr_ok(nx, pexpr)
+    r.ob("R11.2", f"{REL}::next p", okp, detail, loc(REL, nx))
     for bits in BITS:
         p = PREC[bits]
         val = ev(cexpr, {"p": p})
@@ -171,15 +253,6 @@ def run(repo, tier):
         r.ob("R11.2", f"{REL}::next multiplier float{bits}", ok, f"`{norm_src(cexpr)}` with p={p} gives {val!r}, expected 1 - 2**-{p}", loc(REL, cexpr))
     # direction selects
     ret = [n for n in ast.walk(nx) if isinstance(n, ast.Return)][0]
-    txt = norm_src(ret.value)
-    ok = txt == "ctx.select(x > 0, x / c, x * c) if up else ctx.select(x < 0, x / c, x * c)"
-    if not ok:
-        # semantic check: IfExp(up, select(x>0, x/c, x*c), select(x<0, x/c, x*c))
-        v = ret.value
-        ok = (
-            isinstance(v, ast.IfExp) and norm_src(v.test) == "up"
-            and norm_src(v.body).replace(" ", "") in ("ctx.select(x>0,x/c,x*c)", "ctx.select(x<0,x*c,x/c)", "ctx.select(0<x,x/c,x*c)")
-            and norm_src(v.orelse).replace(" ", "") in ("ctx.select(x<0,x/c,x*c)", "ctx.select(x>0,x*c,x/c)", "ctx.select(0>x,x/c,x*c)")
-        )
-    r.ob("R11.2", f"{REL}::next direction", ok, f"next returns `{txt}`: moving away from zero must divide by c, towards zero multiply", loc(REL, ret))
+    ok, detail = next_direction_ok(ret)
+    r.ob("R11.2", f"{REL}::next direction", ok, f"next returns `{norm_src(ret.value)}`: moving away from zero must divide by c, towards zero multiply; {detail}", loc(REL, ret))
     return r
